@@ -79,12 +79,13 @@ TEXT['C07'] = dict(
     note='Trusted: pyvc row dialect (assumed pandas contracts for masks, .index, .loc[labels]=, drop, reset_index), z3, A-FRAME for the dependency of the tables on (_data, _prms).',
     technique='contract-based deductive verification: per-row postcondition in a row dialect + relational lemmas, z3')
 TEXT['C19'] = dict(
-    text=('Proof under floats-as-reals for shift-and-scale, min-max (incl. the derived interval) and the umbrella routines, by symbolic '
-          'execution of the real code over arrays of symbolic length plus arithmetic lemmas; step scaling is outside the contracts and only '
-          'covered by a bounded native run.'),
+    text=('Proof under floats-as-reals for all scaling modes: shift-and-scale, min-max (incl. the derived interval), step scaling (step '
+          'lists of the lengths 0..4 of the property\'s quantifier, symbolic step / scale values) and the umbrella routines, by symbolic '
+          'execution of the real code over value arrays of symbolic length plus arithmetic lemmas (order, inverse, [0,1] image, '
+          'continuity at the step edges); a bounded native run of all modes accompanies it.'),
     design_ref='DESIGN.md section 4 (C19)',
     note='Trusted: pyvc element-wise numpy dialect, assumed contracts of np.nanmax / nanmin / isnan / all, z3 non-linear real arithmetic; A-REAL.',
-    technique='contract-based deductive verification: element-wise postconditions + arithmetic lemmas, z3; bounded run for step scaling')
+    technique='contract-based deductive verification: element-wise postconditions against spec functions + arithmetic lemmas, z3')
 _PB = 'contract-based deductive verification (full-mode contracts on the real ASTs, z3; frame contracts) + bounded run-time check for the clauses resting on library semantics'
 for _pid, _t in {
     'C04': 'Percentile-of-the-look-back-tail, floor coding, table order and the per-set selection of member hits (ceilometer exclusion with its per-set fall-back; one base-routine call per table row, result stored in that row) are proved on the real code; the time ordering of the pinned pandas selection expression and the statistics / fluffiness are recomputed natively on a scene grammar (bounded).',
